@@ -174,6 +174,20 @@ def prov_str(p):
     return str(p)
 
 
+def _hashable(p):
+    if isinstance(p, (list, tuple)):
+        return tuple(_hashable(x) for x in p)
+    if isinstance(p, (set, frozenset)):
+        return frozenset(_hashable(x) for x in p)
+    if isinstance(p, dict):
+        return tuple(sorted((repr(k), _hashable(v)) for k, v in p.items()))
+    try:
+        hash(p)
+        return p
+    except TypeError:
+        return repr(p)
+
+
 class AbsStr(AbstractValue):
     """A string known only by provenance. `facts` may carry domain information."""
 
@@ -199,6 +213,17 @@ class AbsStr(AbstractValue):
 
     def __repr__(self):
         return 'AbsStr%s' % prov_str(self.prov)
+
+    # Two abstract strings with the same provenance are the same value at run time (the same deterministic
+    # derivation from the same source), so they are equal as dictionary keys and list members.
+    def __eq__(self, other):
+        return isinstance(other, AbsStr) and _hashable(self.prov) == _hashable(other.prov)
+
+    def __ne__(self, other):
+        return not self.__eq__(other)
+
+    def __hash__(self):
+        return hash(_hashable(self.prov))
 
     def derive(self, *what):
         return AbsStr(prov=what + (self.prov,))
@@ -230,6 +255,8 @@ class AbsStr(AbstractValue):
         if is_abstract(other) and not isinstance(other, AbsStr):
             return Unknown('cmp')
         o = other.prov if isinstance(other, AbsStr) else other
+        if isinstance(other, AbsStr) and self == other and op in (ast.Eq, ast.NotEq):
+            return op is ast.Eq        # same derivation from the same source: the same string
         if op is ast.Eq:
             return Cond(('streq', self.prov, o))
         if op is ast.NotEq:
